@@ -792,6 +792,8 @@ def call_method(ex, st, obj, name, args, kwargs, node):
 
     if isinstance(obj, cvxmodel.CvxProblem) and name == "solve":
         return cvxmodel.problem_solve(ex, st, obj, args, kwargs)
+    if hasattr(obj, "method"):
+        return obj.method(ex, st, name, args)
     if isinstance(obj, SArr):
         return arr_method(ex, st, obj, name, args, kwargs)
     if isinstance(obj, list):
@@ -948,9 +950,21 @@ def call_builtin(ex, st, name, args, kwargs, node):
     if name == "tuple":
         return tuple(ex.iter_concrete(args[0])) if args else ()
     if name == "set":
-        h = ex.hooks.get("set")
-        if h is not None:
-            return h(ex, st, args)
+        if ex.setmode:
+            from . import setmode
+
+            if not args:
+                return setmode.SSet(z3.EmptySet(z3.IntSort()), ex.ctx, "set")
+            if isinstance(args[0], setmode.SSet):
+                return setmode.SSet(args[0].mem, ex.ctx, args[0].name + "_c")
+            if isinstance(args[0], setmode.SSeq):
+                return setmode.SSet(args[0].mem, ex.ctx, args[0].name + "_s")
+            if isinstance(args[0], sx.RangeVal):
+                lo, hi = args[0].lo, args[0].hi
+                e = z3.Int("e!q")
+                m = setmode.fresh_const(ex.ctx, "range", setmode.SETSORT)
+                st.pc.append(z3.ForAll([e], z3.Select(m, e) == z3.And(V.Z(lo) <= e, e < V.Z(hi))))
+                return setmode.SSet(m, ex.ctx, "range")
         raise Unsupported("set() outside the set-level mode")
     if name == "dict":
         return dict(**kwargs)
